@@ -351,6 +351,29 @@ func (s *Suite) Note(name string, v any) {
 	s.extra[name] = v
 }
 
+// Established records a violation that the running case has already demonstrated, for the one situation
+// in which the case may then be unable to return: the failure itself (say, a panic that escaped from the
+// library with one of its mutexes held) can wedge a goroutine of the case for good. If the case does not
+// return within a few seconds after this call, the recorded violation is reported instead of a hang.
+func Established(err error) {
+	establishedMu.Lock()
+	established = err
+	c := establishedC
+	establishedMu.Unlock()
+	if c != nil {
+		select {
+		case c <- struct{}{}:
+		default:
+		}
+	}
+}
+
+var (
+	establishedMu sync.Mutex
+	established   error
+	establishedC  chan struct{}
+)
+
 // runOne executes one plan with all bookkeeping; it returns a violation to report, or nil.
 func Exec[P any](s *Suite, kind string, plan P, exec func(P) (Outcome, error)) *Violation {
 	if s.Crashy {
@@ -367,10 +390,37 @@ func Exec[P any](s *Suite, kind string, plan P, exec func(P) (Outcome, error)) *
 	}
 	if s.HangLimit > 0 {
 		done := make(chan struct{})
-		go func() { body(); close(done) }()
+		estC := make(chan struct{}, 1)
+		establishedMu.Lock()
+		established, establishedC = nil, estC
+		establishedMu.Unlock()
+		var bOut Outcome
+		var bErr error
+		go func() {
+			bErr = Guard(func() error {
+				var e error
+				bOut, e = exec(plan)
+				return e
+			})
+			close(done)
+		}()
+		hang := time.After(s.HangLimit)
+	wait:
 		select {
 		case <-done:
-		case <-time.After(s.HangLimit):
+			out, err = bOut, bErr
+		case <-estC:
+			select {
+			case <-done:
+				out, err = bOut, bErr
+			case <-time.After(5 * time.Second):
+				// the case demonstrated a violation and then wedged: report the violation
+				establishedMu.Lock()
+				err = established
+				establishedMu.Unlock()
+				break wait
+			}
+		case <-hang:
 			p := s.writeReplay(fmt.Sprintf("hang-%s-seed%s%s.json", kind, os.Getenv("VERIF_SEED"), partTag()), kind, plan, nil)
 			fmt.Printf("VERIF-HANG property=%s kind=%s after=%s replay=%s\n", s.Prop, kind, s.HangLimit, p)
 			s.Flush()
